@@ -1,1 +1,30 @@
+//! Shared runtime of the HTTP monitors: scripted chunked bodies (blocking and async, with an
+//! injectable stream error and a `Pending` between chunks), a router that does what an embedding
+//! server does (method + raw path segments -> endpoint + `PathParams`), and loop-back transports
+//! implementing `conjure_http::client::{Client, AsyncClient}` on top of a set of endpoints.
+pub mod body;
+pub mod loopback;
+pub mod router;
 
+pub use body::{all_chunkings, random_chunking, ChunkStream, Chunks, INJECTED};
+pub use loopback::{AsyncLoopback, Exchange, Loopback};
+pub use router::{route, Routed};
+
+pub fn block_on<F: std::future::Future>(f: F) -> F::Output {
+    futures::executor::block_on(f)
+}
+
+/// `ErrorKind::Service` code name of an error, or a tag for the other kinds.
+pub fn error_class(e: &conjure_error::Error) -> String {
+    match e.kind() {
+        conjure_error::ErrorKind::Service(s) => format!("service:{:?}", s.error_code()),
+        conjure_error::ErrorKind::Throttle(_) => "throttle".into(),
+        conjure_error::ErrorKind::Unavailable(_) => "unavailable".into(),
+        _ => "other".into(),
+    }
+}
+
+/// Whether the error is the injected stream error (recognised by its safe cause text).
+pub fn is_injected(e: &conjure_error::Error) -> bool {
+    e.cause().to_string().contains(INJECTED)
+}
